@@ -17,6 +17,7 @@ LR = "prqlc/prqlc-parser/src/lexer/lr.rs"
 IDENT = "prqlc/prqlc-parser/src/parser/pr/ident.rs"
 STMT = "prqlc/prqlc-parser/src/parser/stmt.rs"
 PMOD = "prqlc/prqlc-parser/src/parser/mod.rs"
+LIB = "prqlc/prqlc/src/lib.rs"
 
 
 def codes(s):
@@ -368,6 +369,8 @@ def extract():
         "parser::import_def": (STMT, r"fn\s+import_def\s*<"),
         "Stmt::write": (AST, r"impl\s+WriteSource\s+for\s+pr::Stmt\s*"),
         "Stmts::write": (AST, r"impl\s+WriteSource\s+for\s+Vec<pr::Stmt>\s*"),
+        # the entry point: fmt_prog is Vec<Stmt>::write at WriteOpt::default(), nothing applied afterwards (seed C14/5)
+        "pl_to_prql": (LIB, r"pub\s+fn\s+pl_to_prql\s*\("),
     }
     got = {}
     for name, (rel, pat) in pins.items():
@@ -431,6 +434,7 @@ PINNED = {
     "parser::import_def": "779ef6dfbd065f4e",
     "Stmt::write": "a9bd15b8ac448f64",
     "Stmts::write": "7a037f3d9fa22f69",
+    "pl_to_prql": "e9c07143ffe47145",
 }
 
 
